@@ -21,6 +21,7 @@ GENERATORS = {
     "TimeDim_gen": "translator.gen_timedim",
     "Interp_gen": "translator.gen_interp",
     "Satisfy_gen": "translator.gen_satisfy",
+    "Classify_gen": "translator.gen_classify",
 }
 
 
